@@ -43,8 +43,8 @@ def run(ctx, ck):
 
     check_junction_accumulate(ctx, ck)
 
-    sites, n = run_cache_rule(ctx, ck, only={('mininec.Insulation_Load.impedance', 'zins'),
-                                             ('mininec.Skin_Effect_Load.impedance', 'zint')})
+    sites, n = run_cache_rule(ctx, ck, only={('*', 'zins'),
+                                             ('*', 'zint')})
     ck.floor('per-object caches', n, 2)
 
     # D4 - on the symbolic walk of _add_conn (temporaries, conditional expressions and table lookups
